@@ -82,9 +82,19 @@ interpolated into rich markup). The model is a model of the repaired tree.
   `C18_print_invisible`: the compilation gives the same output, warnings, variables, the same error with the same trace, and an
   empty print log; `C18_print_text_irrelevant`. These replace the "metamorphic statement validated by correspondence only" notes
   of C15 and C18 by theorems.
+* **Refinement, chain and scanner theorems** (session 3). `C08_refines_scoped` (Spec/Scoped.lean, Lemmas/ScopedRef.lean): the
+  compiler's copy-in / copy-back environment machine refines the textbook scoped stack of frames for ANY history of assignments,
+  block entries and exits (invariant by induction over operations: domains agree at every depth, current values agree, frames do
+  not shadow). `C05_chain` (Lemmas/Chain.lean): an IF/ELIF/ELSE chain of any length as `Stack.run` executes it is the chain with
+  an explicit "a branch has run" boolean — the induction keeps `$IF_SUCCESS` equal to that boolean through every arm and body. The
+  character scanner, by induction over its loop: `lex_digits` / `tokenize_digits` (a digit string of any length is one number token
+  and evaluates to its integer — hence `C01_delay_line`, `C01_default_delay_line`: DELAY / DEFAULT_DELAY lines pass through written
+  as the number they denote) and `lex_name` / `C20_readable` (for EVERY set of names in scope, prefixes of one another included, a name
+  in scope is one Variable token and evaluates to its value: the keyword matcher's candidate-set invariant; names starting with T/F,
+  which back-track through the Boolean class, are left to the correspondence).
 * `Spec.Prog` (the scoped big-step semantics) exists as the Python reference interpreter `harness/refinterp.py` (the
-  construction-side oracle), not as a Lean definition; the C08 refinement theorem is therefore not proved (the algebraic laws
-  are). The third sentence of C02 (no DucklingScript-only keyword without a warning) is decided by oracle + correspondence only.
+  construction-side oracle), not as a Lean definition; the refinement of the WHOLE interpreter to it is therefore not proved (the
+  environment-level refinement `C08_refines_scoped` and the algebraic laws are). The third sentence of C02 (no DucklingScript-only keyword without a warning) is decided by oracle + correspondence only.
   Each Props file header says exactly what is and is not proved.
 * Lists: equality / ordering of two lists and lists stored in variables are `outOfModel`; nested-list *values* exist.
 * Non-vacuity `example`s that would run the interpreter inside the kernel are not used (kernel evaluation of the model exhausts
